@@ -628,6 +628,32 @@ def check_network(ctx, GeoGrid, GeoNetwork, lat, lon, A, directed, wtype,
     if cl.sum() < 0.01 * n:
         ctx.count("degenerate_total_area_skipped")
         return
+    # Other geographic measures may have been evaluated on the same network
+    # and grid before (half of the cases): the distance matrix handed out
+    # afterwards must still be the closed-form one.
+    rw = ctx.rng("warm", cid)
+    if rw.random() < 0.5:
+        for mname in rw.permutation(["local_geographical_clustering",
+                                     "average_link_distance",
+                                     "max_link_distance",
+                                     "link_distance_distribution"])[:2]:
+            try:
+                f = getattr(net, str(mname))
+                ctx.call(f, 4) if "distribution" in str(mname) else \
+                    ctx.call(f)
+            except AttributeError:
+                pass
+        ctx.count("networks_used_before")
+        ok2, Dchk = ctx.call(g.angular_distance)
+        if ok2:
+            Dr = ref.great_circle_matrix(la32.astype(np.float64),
+                                         ref.f32(lon).astype(np.float64))
+            bad = ~np.isfinite(np.asarray(Dchk, float)) | \
+                (np.abs(np.asarray(Dchk, float) - Dr) >= 2.0 ** -10)
+            if bad.any():
+                ctx.violation("angular_distance:abs-error>=2^-10:"
+                              "after-other-measures",
+                              {**case, "at": np.argwhere(bad)[:3]}, cid)
     ok, D = ctx.call(g.angular_distance)
     if not ok:
         return
